@@ -275,6 +275,9 @@ class FsModel:
                 self.ev("atomic.store", a[0])
                 return UNIT
             raise Unsupported("atomic operation .%s" % name)
+        if isinstance(r, Term) and r.op in ("ctr_load", "ctr_rmw", "ctr_next") and name in ("wrapping_add", "checked_add", "saturating_add"):
+            t = Term("ctr_next", r)
+            return some(t) if name == "checked_add" else t
         if isinstance(r, Struct) and r.name == "__Stream":
             if name == "inspect_ok":
                 return Struct("__Stream", {"taps": ListV(list(r.fields["taps"].elems) + [args[0]]), "src": r.fields["src"]})
